@@ -1,329 +1,13 @@
 /-
 C14 — part planning tiles the object and respects S3 limits.
-Only property theorems live here. Quantifiers: every size, chunk size, threshold (unbounded Nat).
+The theorems over unbounded `Nat` are in `Props/C14Base.lean` (core Lean, imported by C01 / C09 / C11);
+this file adds the theorems about the float computation the code performs.  Namespace `S3V.C14` in both.
 -/
-import S3V.Model.Plan
+import S3V.Props.C14Base
 import S3V.Lemmas.Float53
 
 namespace S3V.C14
 open S3V.Plan
-
-/-! ### ceilDiv facts -/
-
-theorem ceilDiv_spec (a b : Nat) (hb : 0 < b) :
-    (ceilDiv a b - 1) * b < a ∨ a = 0 := by
-  unfold ceilDiv
-  by_cases ha : a = 0
-  · right; exact ha
-  · left
-    have h1 : (a + b - 1) / b * b ≤ a + b - 1 := Nat.div_mul_le_self _ _
-    have hpos : 1 ≤ (a + b - 1) / b := (Nat.le_div_iff_mul_le hb).mpr (by omega)
-    have : ((a + b - 1) / b - 1) * b = (a + b - 1) / b * b - b := by
-      rw [Nat.sub_mul]; simp
-    omega
-
-theorem le_ceilDiv_mul (a b : Nat) (hb : 0 < b) : a ≤ ceilDiv a b * b := by
-  unfold ceilDiv
-  have := Nat.lt_div_mul_add (a := a + b - 1) hb
-  omega
-
-theorem ceilDiv_zero (b : Nat) (hb : 0 < b) : ceilDiv 0 b = 0 := by
-  unfold ceilDiv; simp; omega
-
-theorem ceilDiv_pos (a b : Nat) (hb : 0 < b) (ha : 0 < a) : 0 < ceilDiv a b := by
-  unfold ceilDiv
-  exact (Nat.le_div_iff_mul_le hb).mpr (by omega)
-
-theorem ceilDiv_anti (a b c : Nat) (hb : 0 < b) (hbc : b ≤ c) : ceilDiv a c ≤ ceilDiv a b := by
-  have hc : 0 < c := by omega
-  unfold ceilDiv
-  rw [Nat.div_le_iff_le_mul_add_pred hc]
-  have h1 := Nat.lt_div_mul_add (a := a + b - 1) hb
-  have h2 : (a + b - 1) / b * b ≤ (a + b - 1) / b * c := Nat.mul_le_mul_left _ hbc
-  rw [Nat.mul_comm c]
-  omega
-
-theorem ceilDiv_mono (a a' b : Nat) (h : a ≤ a') : ceilDiv a b ≤ ceilDiv a' b := by
-  unfold ceilDiv; exact Nat.div_le_div_right (by omega)
-
-/-- `ceilDiv` really is the ceiling: the least `n` with `a ≤ n*b`. -/
-theorem ceilDiv_least (a b n : Nat) (hb : 0 < b) (h : a ≤ n * b) : ceilDiv a b ≤ n := by
-  unfold ceilDiv
-  rw [Nat.div_le_iff_le_mul_add_pred hb, Nat.mul_comm]
-  omega
-
-/-! ### multipart decision -/
-
-/-- A transfer is multipart exactly when `size ≥ multipart_threshold`. -/
-theorem multipart_iff (size thr : Nat) : isMultipart size thr = true ↔ thr ≤ size := by
-  simp [isMultipart]
-
-/-! ### download / copy ranges tile `[0,size)` -/
-
-/-- Ranges for `i < n = ⌈size/c⌉`: part `i` starts at `i*c`; every part but the last ends at
-`(i+1)*c - 1`, i.e. exactly one byte before the next start; the last is open ended (downloads)
-or ends at `size-1` (copies); the last part starts inside the object and the object ends
-inside the last part. -/
-theorem ranges_tile (size c : Nat) (hc : 0 < c) (hs : 0 < size) (total : Option Nat) :
-    let n := ceilDiv size c
-    (∀ i, i < n → (rangeParam c i n total).start = i * c) ∧
-    (∀ i, i + 1 < n →
-        (rangeParam c i n total).stop = some (((rangeParam c (i+1) n total).start : Int) - 1)) ∧
-    (rangeParam c (n - 1) n total).stop = total.map (fun t => (t : Int) - 1) ∧
-    (n - 1) * c < size ∧ size ≤ n * c := by
-  intro n
-  have hn : 0 < n := ceilDiv_pos size c hc hs
-  refine ⟨?_, ?_, ?_, ?_, ?_⟩
-  · intro i _; unfold rangeParam; split <;> rfl
-  · intro i hi
-    have h1 : ¬ (i + 1 = n) := by omega
-    unfold rangeParam
-    rw [if_neg h1]
-    have : (i + 1) * c = i * c + c := by rw [Nat.add_mul]; simp
-    split <;> simp [this]
-  · unfold rangeParam
-    have : n - 1 + 1 = n := by omega
-    rw [if_pos this]
-  · rcases ceilDiv_spec size c hc with h | h
-    · exact h
-    · omega
-  · exact le_ceilDiv_mul size c hc
-
-/-- Download plan: `start_index` of part `i` equals the start of its Range, so every GET
-writes at the offset it fetched from. -/
-theorem download_start_index (size c : Nat) (p : Range × Nat) (hp : p ∈ downloadParts size c) :
-    p.1.start = p.2 := by
-  unfold downloadParts at hp
-  simp only [List.mem_map, List.mem_range] at hp
-  obtain ⟨i, _, rfl⟩ := hp
-  unfold rangeParam; split <;> rfl
-
-theorem downloadParts_length (size c : Nat) : (downloadParts size c).length = ceilDiv size c := by
-  simp [downloadParts]
-
-/-! ### upload parts tile the source -/
-
-theorem uploadParts_length (size c : Nat) : (uploadParts size c).length = ceilDiv size c := by
-  simp [uploadParts]
-
-/-- Part numbers are `1..n` in order, part `k` starts where part `k-1` ended, starts at 0. -/
-theorem upload_parts_consecutive (size c : Nat) (hc : 0 < c) (i : Nat)
-    (hi : i < ceilDiv size c) :
-    ∃ p, (uploadParts size c)[i]? = some p ∧ p.number = i + 1 ∧ p.start = c * i ∧
-      (i + 1 < ceilDiv size c → p.len = c) ∧
-      (i + 1 = ceilDiv size c → p.start + p.len = size) ∧ 0 < p.len := by
-  refine ⟨{ number := i + 1, start := c * i, len := min (size - c * i) c }, ?_, rfl, rfl, ?_, ?_, ?_⟩
-  · simp [uploadParts, hi]
-  · intro h
-    -- (i+1) < n  ⇒ (i+1)*c < size
-    have h1 : (ceilDiv size c - 1) * c < size ∨ size = 0 := ceilDiv_spec size c hc
-    have hz : size ≠ 0 := by
-      intro hz; rw [hz, ceilDiv_zero c hc] at hi; omega
-    have h2 : (i + 1) * c ≤ (ceilDiv size c - 1) * c := Nat.mul_le_mul_right _ (by omega)
-    have : (i + 1) * c = c * i + c := by rw [Nat.add_mul, Nat.mul_comm]; simp
-    simp only
-    omega
-  · intro h
-    have h1 := le_ceilDiv_mul size c hc
-    have h0 : (ceilDiv size c - 1) * c < size ∨ size = 0 := ceilDiv_spec size c hc
-    have hz : size ≠ 0 := by
-      intro hz; rw [hz, ceilDiv_zero c hc] at hi; omega
-    have e1 : ceilDiv size c = i + 1 := h.symm
-    rw [e1] at h1 h0
-    have : (i + 1) * c = c * i + c := by rw [Nat.add_mul, Nat.mul_comm]; simp
-    simp only [Nat.add_sub_cancel] at h0
-    rw [Nat.mul_comm i c] at h0
-    simp only
-    omega
-  · have h0 : (ceilDiv size c - 1) * c < size ∨ size = 0 := ceilDiv_spec size c hc
-    have hz : size ≠ 0 := by
-      intro hz; rw [hz, ceilDiv_zero c hc] at hi; omega
-    have h2 : i * c ≤ (ceilDiv size c - 1) * c := Nat.mul_le_mul_right _ (by omega)
-    rw [Nat.mul_comm i c] at h2
-    simp only
-    omega
-
-/-- The lengths of the upload parts sum to the size: no gap, no overlap (with
-`upload_parts_consecutive`: each part starts at the sum of the previous lengths). -/
-theorem upload_parts_sum (size c : Nat) (hc : 0 < c) :
-    ((uploadParts size c).map (·.len)).sum = size := by
-  -- generalised: sum over first k parts = min (k*c) size
-  have key : ∀ k, ((List.range k).map fun i => min (size - c * i) c).sum = min (k * c) size := by
-    intro k
-    induction k with
-    | zero => simp
-    | succ k ih =>
-      rw [List.range_succ, List.map_append, List.sum_append, ih]
-      simp only [List.map_cons, List.map_nil, List.sum_cons, List.sum_nil, Nat.add_zero]
-      have : (k + 1) * c = k * c + c := by rw [Nat.add_mul]; simp
-      rw [this, Nat.mul_comm c k]
-      omega
-  have := key (ceilDiv size c)
-  have h1 := le_ceilDiv_mul size c hc
-  unfold uploadParts
-  rw [List.map_map]
-  simp only [Function.comp_def]
-  rw [this]; omega
-
-/-! ### copy part sizes -/
-
-/-- Progress sizes of the copy parts are positive for every part and sum to the size. -/
-theorem copy_sizes_sum (size c : Nat) (hc : 0 < c) (hs : 0 < size) :
-    (((List.range (ceilDiv size c)).map fun i => copyPartSize c i (ceilDiv size c) size).sum : Int)
-      = size := by
-  have hn := ceilDiv_pos size c hc hs
-  -- sum over first k < n parts = k*c ; last = size - (n-1)*c
-  have key : ∀ k, k < ceilDiv size c →
-      (((List.range k).map fun i => copyPartSize c i (ceilDiv size c) size).sum : Int) = (k * c : Nat) := by
-    intro k hk
-    induction k with
-    | zero => simp
-    | succ k ih =>
-      rw [List.range_succ, List.map_append, List.sum_append, ih (by omega)]
-      have hne : ¬ (k + 1 = ceilDiv size c) := by omega
-      simp only [List.map_cons, List.map_nil, List.sum_cons, List.sum_nil, copyPartSize, if_neg hne]
-      have : (k + 1) * c = k * c + c := by rw [Nat.add_mul]; simp
-      rw [this]; simp
-  obtain ⟨m, hm⟩ : ∃ m, ceilDiv size c = m + 1 := ⟨ceilDiv size c - 1, by omega⟩
-  rw [hm, List.range_succ, List.map_append, List.sum_append]
-  have := key m (by omega)
-  rw [hm] at this
-  rw [this]
-  simp only [List.map_cons, List.map_nil, List.sum_cons, List.sum_nil, copyPartSize, if_pos]
-  rcases ceilDiv_spec size c hc with h | h
-  · rw [hm] at h; simp at h; omega
-  · omega
-
-/-- Each copy part's progress size equals the byte length of its `CopySourceRange`. -/
-theorem copy_size_matches_range (size c i : Nat) (hc : 0 < c) (hi : i < ceilDiv size c) :
-    let n := ceilDiv size c
-    ∃ e, (rangeParam c i n (some size)).stop = some e ∧
-      copyPartSize c i n size = e - (rangeParam c i n (some size)).start + 1 := by
-  intro n
-  unfold rangeParam copyPartSize
-  by_cases h : i + 1 = n
-  · simp only [if_pos h, Option.map]
-    exact ⟨_, rfl, by omega⟩
-  · simp only [if_neg h]
-    exact ⟨_, rfl, by
-      have : ((i * c + c : Nat) : Int) = (i*c : Nat) + (c : Nat) := by omega
-      omega⟩
-
-/-! ### chunk size adjustment -/
-
-theorem adjustLimits_in (mn mx c : Nat) (h : mn ≤ mx) :
-    mn ≤ adjustLimits mn mx c ∧ adjustLimits mn mx c ≤ mx := by
-  unfold adjustLimits; split
-  · omega
-  · split <;> omega
-
-theorem adjustMaxParts_ge (mp c size : Nat) : c ≤ adjustMaxParts mp c size := by
-  fun_induction adjustMaxParts mp c size with
-  | case1 c h ih => omega
-  | case2 c h => omega
-
-/-- After the doubling loop the part count is within the limit (for a positive chunk size). -/
-theorem adjustMaxParts_parts (mp c size : Nat) (hc : 0 < c) (hmp : 0 < mp) :
-    ceilDiv size (adjustMaxParts mp c size) ≤ mp := by
-  fun_induction adjustMaxParts mp c size with
-  | case1 c h ih => exact ih (by omega)
-  | case2 c h => omega
-
-theorem adjustMaxParts_id (mp c size : Nat) (h : ceilDiv size c ≤ mp) :
-    adjustMaxParts mp c size = c := by
-  unfold adjustMaxParts
-  rw [dif_neg]; omega
-
-/-- The effective part size lies in `[5 MiB, 5 GiB]` — for known and unknown sizes. -/
-theorem adjust_in_limits (mn mx mp c : Nat) (size : Option Nat) (h : mn ≤ mx) :
-    mn ≤ adjustWith mn mx mp c size ∧ adjustWith mn mx mp c size ≤ mx := by
-  unfold adjustWith; split <;> exact adjustLimits_in _ _ _ h
-
-/-- `n ≤ max_parts` for every known size up to `mx * mp'` where `⌈sizeLimit/mx⌉ ≤ mp`
-(instantiated below with S3's numbers: 5 TiB / 5 GiB = 1024 ≤ 10 000). -/
-theorem adjust_parts_le_general (mn mx mp c size lim : Nat) (hc : 0 < c) (hmp : 0 < mp)
-    (hmn : 0 < mn) (_hmm : mn ≤ mx) (hs : size ≤ lim) (hl : ceilDiv lim mx ≤ mp) :
-    ceilDiv size (adjustWith mn mx mp c (some size)) ≤ mp := by
-  unfold adjustWith adjustLimits
-  have h1 := adjustMaxParts_parts mp c size hc hmp
-  have h0 := adjustMaxParts_ge mp c size
-  simp only
-  split
-  · exact Nat.le_trans (ceilDiv_mono size lim mx hs) hl
-  · split
-    · exact Nat.le_trans (ceilDiv_anti size _ mn (by omega) (by omega)) h1
-    · exact h1
-
-/-- "Changed only when a limit requires it", direction 1: a chunk size that already satisfies
-all three limits is returned unchanged. -/
-theorem adjust_minimal_id (mn mx mp c size : Nat)
-    (h1 : mn ≤ c) (h2 : c ≤ mx) (h3 : ceilDiv size c ≤ mp) :
-    adjustWith mn mx mp c (some size) = c := by
-  unfold adjustWith
-  simp only
-  rw [adjustMaxParts_id mp c size h3]
-  unfold adjustLimits
-  rw [if_neg (by omega), if_neg (by omega)]
-
-theorem adjust_minimal_id_unknown (mn mx mp c : Nat) (h1 : mn ≤ c) (h2 : c ≤ mx) :
-    adjustWith mn mx mp c none = c := by
-  unfold adjustWith adjustLimits
-  simp only
-  rw [if_neg (by omega), if_neg (by omega)]
-
-/-- Direction 2: whenever the result differs from the configured value, the configured value
-violates one of the three limits. -/
-theorem adjust_minimal (mn mx mp c size : Nat)
-    (h : adjustWith mn mx mp c (some size) ≠ c) :
-    c < mn ∨ mx < c ∨ mp < ceilDiv size c := by
-  by_cases h1 : mn ≤ c
-  · by_cases h2 : c ≤ mx
-    · by_cases h3 : ceilDiv size c ≤ mp
-      · exact absurd (adjust_minimal_id mn mx mp c size h1 h2 h3) h
-      · right; right; omega
-    · right; left; omega
-  · left; omega
-
-/-! ### the same with the constants read from /repo (Gen.Consts) -/
-
-/-- S3's numbers as extracted from the source on this run make the general theorems apply:
-min ≤ max, both positive, and 5 TiB / max ≤ max_parts. If someone edits the constants so that
-this fails, this `decide` fails and C14 is re-examined. -/
-theorem consts_ok :
-    0 < Gen.adjusterMinSize ∧ Gen.adjusterMinSize ≤ Gen.adjusterMaxSize ∧
-    0 < Gen.adjusterMaxParts ∧ ceilDiv (5 * 2^40) Gen.adjusterMaxSize ≤ Gen.adjusterMaxParts := by
-  decide +kernel
-
-/-- The S3 limits the property names, checked against the extracted constants. -/
-theorem consts_are_s3_limits :
-    Gen.adjusterMinSize = 5 * 2^20 ∧ Gen.adjusterMaxSize = 5 * 2^30 ∧ Gen.adjusterMaxParts = 10000 := by
-  decide +kernel
-
-/-- For uploads and copies the effective part size lies within `[5 MiB, 5 GiB]` and
-`n ≤ 10 000` for every size up to 5 TiB, every positive configured chunk size. -/
-theorem adjust_parts_le (c size : Nat) (hc : 0 < c) (hs : size ≤ 5 * 2^40) :
-    Gen.adjusterMinSize ≤ adjust c (some size) ∧ adjust c (some size) ≤ Gen.adjusterMaxSize ∧
-    ceilDiv size (adjust c (some size)) ≤ Gen.adjusterMaxParts := by
-  obtain ⟨h1, h2, h3, h4⟩ := consts_ok
-  have := adjust_in_limits Gen.adjusterMinSize Gen.adjusterMaxSize Gen.adjusterMaxParts c (some size) h2
-  exact ⟨this.1, this.2,
-    adjust_parts_le_general _ _ _ c size (5 * 2^40) hc h3 h1 h2 hs h4⟩
-
-theorem adjust_unchanged (c size : Nat) (h1 : Gen.adjusterMinSize ≤ c)
-    (h2 : c ≤ Gen.adjusterMaxSize) (h3 : ceilDiv size c ≤ Gen.adjusterMaxParts) :
-    adjust c (some size) = c := adjust_minimal_id _ _ _ c size h1 h2 h3
-
-theorem adjust_changed_only_if_needed (c size : Nat) (h : adjust c (some size) ≠ c) :
-    c < Gen.adjusterMinSize ∨ Gen.adjusterMaxSize < c ∨ Gen.adjusterMaxParts < ceilDiv size c :=
-  adjust_minimal _ _ _ c size h
-
-/-! ### D13 (recorded finding): with an unknown size nothing bounds the part count. -/
-
-/-- Counter-example kept next to the bound: a non-seekable stream of `10000·5MiB + 1` bytes and
-unknown size is planned with the 5 MiB part size and therefore 10 001 parts. -/
-theorem unknown_size_exceeds_parts :
-    Gen.adjusterMaxParts < ceilDiv (10000 * (5 * 2^20) + 1) (adjust 1 none) := by
-  decide +kernel
 
 /-! ### the float computation of the code: `int(math.ceil(size / float(part_size)))`
 
@@ -362,11 +46,7 @@ theorem float_ceil_inexact_beyond :
     Float53.fceil (2 ^ 53 + 1) 1 ≠ (ceilDiv (2 ^ 53 + 1) 1 : Int) := by decide +kernel
 
 /-! ### non-vacuity -/
-example : 0 < (8 : Nat) ∧ (20 : Nat) ≤ 5 * 2^40 := by decide
-example : (uploadParts 20 8).map (·.len) = [8, 8, 4] := by decide
-example : downloadParts 20 8 =
-    [({ start := 0, stop := some 7 }, 0), ({ start := 8, stop := some 15 }, 8),
-     ({ start := 16, stop := none }, 16)] := by decide
-example : adjust (8 * 2^20) (some (5 * 2^40)) = 1024 * 2^20 := by decide +kernel
+example : Float53.fdiv 1 10 = (3602879701896397 : Rat) / 36028797018963968 := by decide +kernel
+example : Float53.fceil 11 5 = 3 := by decide +kernel
 
 end S3V.C14
